@@ -47,6 +47,24 @@ fn parse_src<T: serde::de::DeserializeOwned>(cfg: &str, src: &str, data: &[u8]) 
             return None;
         }
     }
+    if src.contains("+m") {
+        // the reader stays with the caller and is lent as `&mut R` (the forwarding `impl Read for &mut R`): Deserializer::new(&mut read), then end()
+        fn lent<'de, R: JRead<'de>, T: serde::Deserialize<'de>>(mut read: R) -> Result<T, serde_json::Error> {
+            let mut de = serde_json::Deserializer::new(&mut read);
+            let v = T::deserialize(&mut de)?;
+            de.end()?;
+            Ok(v)
+        }
+        let base = src.split('+').next().unwrap_or(src);
+        return Some(if base.starts_with('s') {
+            let s = std::str::from_utf8(data).ok()?;
+            lent(serde_json::de::StrRead::new(s))
+        } else if base.starts_with('b') {
+            lent(serde_json::de::SliceRead::new(data))
+        } else {
+            lent(serde_json::de::IoRead::new(ChunkReader::from_spec(data, base)))
+        });
+    }
     Some(if src.starts_with('s') {
         let s = std::str::from_utf8(data).ok()?;
         serde_json::from_str(s)
